@@ -101,7 +101,7 @@ def check(sc):
 
 def search(seed, budget):
     rnd = random.Random(seed)
-    n = 150 if budget == "quick" else 3000
+    n = 1500 if budget == "quick" else 12000
     seen = set()
     for i in range(n):
         sc = {"t1": gen(rnd, 2), "t2": gen(rnd, 2)}
